@@ -15,7 +15,7 @@ func init() { register("C14", "model_checking", checkC14) }
 
 // entities whose names are choice points, with their neutral names
 var c14Entities = []struct{ id, neutral, class string }{
-	{"pkgA", "alib", "pkg"}, {"pkgB", "blib", "pkg"}, {"pkgC", "clib", "pkg"},
+	{"pkgA", "alib", "pkg"}, {"pkgB", "blib", "pkg"}, {"pkgC", "clib", "pkg"}, {"pkgD", "dlib", "pkg"},
 	{"tA", "Alpha", "libtype"}, {"tB", "Beta", "libtype"},
 	{"tC", "Gamma", "type"}, {"tS", "Agg", "type"}, {"tV", "Val", "type"}, {"tR", "Res", "type"}, {"tP0", "ArgT", "type"}, {"tP1", "ArgU", "type"},
 	{"fA", "NewAlpha", "libfunc"}, {"fB", "NewBeta", "libfunc"}, {"fC", "newGamma", "func"}, {"fR", "newRes", "func"},
@@ -32,7 +32,7 @@ var c14Pools = map[string][]string{
 	"libfunc": {"Err", "Cleanup", "NewGamma", "Alpha", "Init"},
 	"func":    {"err", "cleanup", "gamma", "alpha", "alib", "newAlpha", "res", "agg"},
 	"field":   {"Err", "Cleanup", "err", "cleanup", "Alpha"},
-	"param":   {"err", "err2", "cleanup", "cleanup2", "_", "-", "alpha", "gamma", "gamma2", "alib", "blib", "string", "len", "res", "agg", "val", "argT", "arg"},
+	"param":   {"err", "err2", "cleanup", "cleanup2", "dlib", "clib", "_", "-", "alpha", "gamma", "gamma2", "alib", "blib", "string", "len", "res", "agg", "val", "argT", "arg"},
 	"decl":    {"err", "err2", "cleanup", "cleanup2", "cleanup3", "alpha", "alpha2", "gamma", "beta", "res", "agg", "agg2", "alib", "alib2", "blib", "_wireValValue", "_wireValValue2", "string", "len", "val", "argT", "argU", "arg", "true"},
 }
 
@@ -49,7 +49,9 @@ func c14Program(n map[string]string, declKind int) (*ir.Program, bool) {
 	tR := b.Leaf(p, n["tR"])
 	tP0 := b.Leaf(p, n["tP0"])
 	tP1 := b.Int(p, n["tP1"])
-	tS := b.Agg(p, n["tS"], &ir.Field{Name: n["fieldA"], T: tA}, &ir.Field{Name: n["fieldB"], T: tC})
+	// the struct built by wire.Struct lives in a package of its own that nothing else mentions
+	ld := &ir.Pkg{Name: n["pkgD"], Rel: "d/w"}
+	tS := b.Agg(ld, n["tS"], &ir.Field{Name: n["fieldA"], T: tA}, &ir.Field{Name: n["fieldB"], T: tB})
 	fA := &ir.Func{Pkg: la, Name: n["fA"], Out: tA, Err: true}
 	fB := &ir.Func{Pkg: lb, Name: n["fB"], Params: []*ir.Type{tA}, Out: tB, Err: true, Cleanup: true}
 	fC := &ir.Func{Pkg: p, Name: n["fC"], Params: []*ir.Type{tB, tP0}, Out: tC, Cleanup: true}
@@ -70,7 +72,7 @@ func c14Program(n map[string]string, declKind int) (*ir.Program, bool) {
 	prog := &ir.Program{Root: p, Injectors: []*ir.Injector{inj1, inj2}, Hist: 2, UserImportPrefix: "u_",
 		InjectorImports: []*ir.Pkg{lc},
 		ExtraFiles:      map[string]string{"c/z/z.go": "package " + n["pkgC"] + "\n\nvar Thing = 1\n\nfunc Twice(x int) int { return 2 * x }\n"}}
-	if n["pkgC"] == n["pkgA"] || n["pkgC"] == n["pkgB"] {
+	if n["pkgC"] == n["pkgA"] || n["pkgC"] == n["pkgB"] || n["pkgC"] == n["pkgD"] {
 		// the renderer numbers the aliases of same-named packages; keep the copied text in step with it
 		return nil, false
 	}
@@ -88,7 +90,7 @@ func c14Program(n map[string]string, declKind int) (*ir.Program, bool) {
 	}
 	// ---- Go-level well-typedness of the user's own program (predicted here; such namings are skipped) ----
 	rootNames := map[string]int{}
-	for _, k := range []string{"tC", "tS", "tV", "tR", "tP0", "tP1", "fC", "fR", "set", "decl"} {
+	for _, k := range []string{"tC", "tV", "tR", "tP0", "tP1", "fC", "fR", "set", "decl"} {
 		if n[k] != "" {
 			rootNames[n[k]]++
 		}
@@ -98,8 +100,11 @@ func c14Program(n map[string]string, declKind int) (*ir.Program, bool) {
 	rootNames["Init"]++
 	rootNames["Init2"]++
 	rootNames["VerifDrive"]++
-	for _, k := range []string{"tC", "tS", "tV", "tR", "tP0", "tP1"} {
+	for _, k := range []string{"tC", "tV", "tR", "tP0", "tP1"} {
 		rootNames["Desc_"+n[k]]++
+	}
+	if n["tS"] == n["tA"] && n["pkgD"] == n["pkgA"] {
+		return nil, false
 	}
 	// import names used in the root package's files are package-scope names of those files
 	// (the user's files import the two packages as u_<name>, so package names may collide with anything)
@@ -116,7 +121,7 @@ func c14Program(n map[string]string, declKind int) (*ir.Program, bool) {
 	if n["tA"] == n["fA"] || n["tB"] == n["fB"] || n["fieldA"] == n["fieldB"] {
 		return nil, false
 	}
-	for _, k := range []string{"tA", "tB", "fA", "fB"} {
+	for _, k := range []string{"tA", "tB", "fA", "fB", "tS", "fieldA", "fieldB"} {
 		r := []rune(n[k])
 		if !unicode.IsUpper(r[0]) {
 			return nil, false
@@ -144,7 +149,7 @@ func c14Program(n map[string]string, declKind int) (*ir.Program, bool) {
 	// a parameter shadows package-level names inside the injector template: if it is named like something the
 	// wire.Build call mentions, the template means a different program (or does not type-check)
 	for _, pk := range []string{"param0", "param1"} {
-		for _, k := range []string{"fC", "fR", "set", "tS", "tV"} {
+		for _, k := range []string{"fC", "fR", "set", "tV"} {
 			if n[pk] == n[k] {
 				return nil, false
 			}
